@@ -104,7 +104,7 @@ def run_check(pid, tier, seed, out=sys.stdout):
     pl = plan(pid, tier)
     rounds = pl['rounds']
     wall_cap = pl['wall_cap_s']
-    round_timeout = pl.get('round_timeout_s', 900)
+    round_timeout = pl.get('round_timeout_s', 1800)
     print('check %s tier=%s VERIF_SEED=%d rounds=%d jobs=%d python=%s repo=%s' % (pid, tier, seed, rounds, NPROC, PY, REPO), file=out)
     results = []
     skipped = 0
